@@ -5,7 +5,8 @@ A stub replaces one FFI call (`svd_flat`, `np.linalg.qr`, `qr_li`, `np.linalg.ei
 `scipy.linalg.expm`) by *fresh symbols* that are constrained by nothing but the documented contract:
 
     svd      U diag(S) V = A,  U^dagger U = 1 (U U^dagger = 1 if square), V V^dagger = 1 (V^dagger V = 1 if square),
-             S real, S >= 0, descending
+             S real, S >= 0, descending;  linear consequences given to the branch context: S[k] = 0 for k >= number of rows /
+             columns that are not literally zero, S[0] = 0 iff A = 0
     qr       Q R = A, Q^dagger Q = 1 (Q Q^dagger = 1 if square), R upper triangular (literal zeros below the
              diagonal) with real diagonal (LAPACK geqrf);  R[:, j] = 0 for a literally zero column j of A
              (consequence of R = Q^dagger A);  r_jj == 0  <=>  column j of A is zero (see `qr`)
@@ -19,6 +20,13 @@ Equalities are registered with ``ctx.assume_zero`` (kept out of the branch-feasi
 by ``prove`` / ``prove_eq``), order / sign constraints on the fresh real symbols go to the branch context.
 Every stub is *functional per path*: calling it twice with the same entries returns the same symbols (LAPACK is
 deterministic), which lets a harness compare e.g. ``svd(a, cutoff=c)`` with ``svd(a)``.
+
+Model search only (never hypotheses): every stub proposes a simple solution of its contract (isometries = rectangular
+identity or signed permutation, well separated spectra) through ``ctx.side_hints / side_hint_values / side_hint_domains``;
+``engine.prove_eq`` tries them as solver assumptions when it looks for a counterexample of a failing obligation.
+
+Use: ``symx.lapack.install()`` in ``setup_symbolic`` (after / instead of ``stubs.install_blas()``): patches the module
+globals ``svd_flat, qr_li, anynan, scipy, np`` of ``tenpy.linalg.np_conserved`` (numpy facade with widening).
 """
 import numpy as np
 
@@ -189,9 +197,15 @@ def make_svd(orig):
                 ctx.solver.add((Sv[k] >= Sv[k + 1]).t if isinstance(Sv[k] >= Sv[k + 1], S.B) else True)
             memo[ks] = Sv
             _hint_values(ctx, Sv, [(f"{2 * (K - k) + 1}/2", 0) for k in range(K)])
-            if _all_zero(A.reshape(-1)):
-                for k in range(K):  # singular values of the zero matrix (consequence of S = U^dagger A V^dagger)
-                    ctx.solver.add(_zt(Sv[k]))
+            # linear consequences of the contract, given to the branch context so that structurally impossible spectra are
+            # not explored:  rank(A) <= number of rows / columns that are not literally zero;  S[0] = ||A||_2 = 0 iff A = 0
+            import z3
+            nzr = sum(1 for i in range(M) if not _all_zero(A[i, :]))
+            nzc = sum(1 for j in range(N) if not _all_zero(A[:, j]))
+            for k in range(min(nzr, nzc), K):
+                ctx.solver.add(_zt(Sv[k]))
+            if K and min(nzr, nzc) > 0:
+                ctx.solver.add(_zt(Sv[0]) == z3.And([_zt(v) for v in A.reshape(-1) if v.n]))
         if not compute_uv:
             return Sv.copy()
         ku = _akey(A, 'svd.UV', bool(full_matrices))
@@ -268,9 +282,10 @@ def make_qr(orig):
 def make_qr_li(orig):
     """stub for tenpy.tools.math.qr_li(A, cutoff): QR with a symbolic number k of kept columns.
 
-    Contract used: Q (M,k) isometry, R (k,N) upper triangular ("upper right"), Q R = A (exact: models blocks whose exact
-    rank is k, i.e. whose discarded pivots vanish), k is any value in 0..min(M,N) (each one is a path); k = 0 is only
-    returned for ... any block (qr_li returns empty factors when no pivot exceeds the cutoff)."""
+    Contract used: Q (M,k) isometry, R (k,N) upper triangular ("upper right") with real diagonal, |r_jj| > cutoff,
+    Q R = A (exact: models blocks whose exact rank is k, i.e. whose discarded pivots vanish); k is any value in
+    1..min(M,N) (each one is a path) and 0 for a literally zero block (qr_li returns empty factors when no pivot exceeds
+    the cutoff)."""
 
     def qr_li(A_, cutoff=1.e-15):
         if not is_obj(A_):
